@@ -66,6 +66,9 @@ def report(pid, tier, seed, spec, vcs, results, wall):
             "outside_the_bounds": getattr(spec, "OUTSIDE", ""),
             "solver": {"name": "z3", "version": z3.get_version_string(), "time_s": round(sum(r["solver_time"] for r in ok), 3),
                        "calls": sum(r["solver_calls"] for r in ok)},
+            "second_solver": {"name": "cvc5 1.0 (SMT-LIB2 dump of each non-trivial obligation, thorough tier of specs that opt in)",
+                              "agree": sum(r.get("second_solver", {}).get("agree", 0) for r in ok), "disagree": sum(r.get("second_solver", {}).get("disagree", 0) for r in ok),
+                              "no_answer": sum(r.get("second_solver", {}).get("no-answer", 0) for r in ok)},
             "known_findings_matched": known, "inconclusive": inconcl[:10], "unsupported": unsupported[:10], "vacuity": vacuous,
             "tree": build.tree_hash(),
         },
